@@ -158,6 +158,9 @@ def random_series(rng, n):
         x = np.round(rng.normal(size=n), 1)
     name = ['noise', 'intwalk', 'flatends', 'clipped', 'plateau', 'fewlevels', 'rounded'][k]
     r = rng.random()
+    if r > 0.8 and r <= 0.9:      # numerically special scales (see gen.special_scale)
+        x, suffix = gen.special_scale(rng, x)
+        return x, name + suffix
     if r > 0.9:       # huge dynamic range inside one record: one (or the first) sample is 1e3..1e12 times larger than the steps of
         # the rest (a rebase such as values - values[0] would round the small steps away)
         x = x * 10 ** rng.uniform(-12, -3)
@@ -192,9 +195,13 @@ def run_shard(ctx):
             if idx % ctx.nshards != ctx.shard:
                 continue
             nontriv = len(set(seq)) > 1
-            for variant in ((0, 1, 2, 3) if L <= 6 else ((0, 1, 2) if L <= 8 else (0,))):
+            for variant in ((0, 1, 2, 3, 4, 5) if L <= 6 else ((0, 1, 2) if L <= 8 else (0,))):
                 if variant == 0:
                     s = np.array(seq, dtype=float)
+                elif variant == 4:
+                    s = (np.array(seq, dtype=float) - 2.0) * 1e-200    # products of two steps underflow
+                elif variant == 5:
+                    s = (np.array(seq, dtype=float) - 2.0) * 1e200     # products of two steps overflow
                 elif variant == 1:
                     s = np.array(seq, dtype=np.int64)
                 elif variant == 2:
